@@ -11,6 +11,7 @@ pub mod c12;
 pub mod c14;
 pub mod common;
 pub mod issue;
+pub mod jwtk;
 pub mod c01;
 pub mod c02;
 pub mod present;
@@ -45,12 +46,15 @@ pub fn generate(id: &str, thorough: bool, seed: u64, em: &mut Emitter) {
         "C01" => c01::generate(thorough, seed, em),
         "C02" => c02::generate(thorough, seed, em),
         "C03" => c03::generate(thorough, seed, em),
+        "C04" => jwtk::generate_c04(thorough, seed, em),
         "C05" => c05::generate(thorough, seed, em),
         "C06" => c06::generate(thorough, seed, em),
         "C09" => c09::generate(thorough, seed, em),
         "C10" => c10::generate(thorough, seed, em),
+        "C11" => jwtk::generate_c11(thorough, seed, em),
         "C12" => c12::generate(thorough, seed, em),
         "C14" => c14::generate(thorough, seed, em),
+        "C16" => jwtk::generate_c16(thorough, seed, em),
         _ => panic!("unknown property {}", id),
     }
 }
@@ -61,6 +65,8 @@ pub fn execute(kind: &str, input: &Value) -> Value {
         "verify" => common::exec_verify(input),
         "issue" => issue::exec_issue(input),
         "present" => present::exec_present(input),
+        "bstep" => jwtk::exec_bstep(input),
+        "decode" => jwtk::exec_decode(input),
         _ => json!({"harness_error": format!("unknown kind {}", kind)}),
     }
 }
